@@ -87,6 +87,11 @@ class PipeCore(object):
                 raise self.exc_timeout('injected timeout at call %d (%s)' % (k, kind))
             if f == 'reset':
                 raise SimReset('injected reset at call %d (%s)' % (k, kind))
+            if f == 'cancel':
+                if kind == 'bulk_write':
+                    return 'cancel_after'           # the bytes are handed over, the cancellation arrives while waiting for the drain
+                import asyncio
+                raise asyncio.CancelledError()      # the task running the operation is cancelled at this await point (async only)
             if f == 'eof':
                 self.eof_mode = True           # end of stream: every read from now on is empty
                 if kind == 'bulk_read':
@@ -180,6 +185,9 @@ class PipeCore(object):
         if self.log_io:
             self.rec.ev('bw', n=len(data), k=acc)
         self._host_bytes(chunk)
+        if r == 'cancel_after':
+            import asyncio
+            raise asyncio.CancelledError()
         return acc
 
     def _host_bytes(self, chunk):
